@@ -47,10 +47,10 @@ Definition the_env : env := {|
   k_default_ctor := (s "NewGontainer");
   k_default_must := false;
   k_builtin_funcs := [((s "env"), (s "getEnv")); ((s "envInt"), (s "getEnvInt")); ((s "todo"), (s "paramTodo"))];
-  k_reserved_getters := [(s "AddDecorator"); (s "CircularDeps"); (s "Get"); (s "GetInContext"); (s "GetParam"); (s "GetTaggedBy"); (s "GetTaggedByInContext"); (s "HotSwap"); (s "IsTaggedBy"); (s "OverrideParam"); (s "OverrideService"); (s "Root")];
+  k_reserved_getters := [(s "AddDecorator"); (s "CircularDeps"); (s "Container"); (s "Get"); (s "GetInContext"); (s "GetParam"); (s "GetTaggedBy"); (s "GetTaggedByInContext"); (s "HotSwap"); (s "IsTaggedBy"); (s "OverrideParam"); (s "OverrideService"); (s "Root")];
   k_row_width := 60%nat;
-  k_check := (bs [91;226;156;147;93]);
-  k_xmark := (bs [91;226;168;137;93]);
+  k_check := (bs [91;226;156;147;93]%N);
+  k_xmark := (bs [91;226;168;137;93]%N);
   w_arg_chain := [RNonString; RValue; RService; RTagged; RFixed (s "$gontainer") (s "rootGontainer"); RPattern];
   w_param_chain := [RNonString; RPattern];
   w_factories := [FPercent; FReference; FUnexpectedFunction; FUnexpectedToken; FString];
